@@ -25,5 +25,7 @@ UNIT = dict(
         IDS('set_object'),
         dict(file=D, impl='Document', name='has_object', rules=dict(no_sink=True)),
         dict(file=I, impl='IncrementalDocument', name='opt_clone_object_to_new_document', rules=dict(no_sink=True)),
+        dict(file=I, impl='IncrementalDocument', name='get_prev_documents', rules=dict(no_sink=True)),
+        dict(file=I, impl='IncrementalDocument', name='get_prev_documents_bytes', rules=dict(no_sink=True)),
     ],
 )
